@@ -108,6 +108,13 @@ func genC08Plan(r *zsim.Rng) *sysPlan {
 			p.Lines.Extra = append(p.Lines.Extra, b.String())
 		}
 		p.Gens[0] = p.Lines
+		if r.Bool() {
+			// change-nth(2|1|) all the way round: the third press brings back the fields given on the command line
+			p.Events = append(p.Events, sysEvent{Kind: "settle"}, sysEvent{Kind: "keys", Keys: string(lineAlphabet[r.Intn(len(lineAlphabet))])}, sysEvent{Kind: "settle"})
+			for k := 0; k < 3; k++ {
+				p.Events = append(p.Events, sysEvent{Kind: "keys", Keys: "alt-n", DelayMs: genDelay(r)}, sysEvent{Kind: "settle"})
+			}
+		}
 	}
 	if r.Chance(1, 8) {
 		// aimed at the hand-over at the end of a reload-sync: lines are excluded, a slow reload-sync replaces
@@ -233,6 +240,7 @@ func c08Settle(r *sysRun, busy bool, final bool) {
 	binds := boundActions(plan.baseArgs())
 	sortNow := plan.Match.Sort
 	sortKnown, afterJump := true, false
+	nthKnown, nthPresses := true, 0
 	delivered := 0
 	for i := range plan.Events {
 		ev := plan.Events[i]
@@ -253,12 +261,30 @@ func c08Settle(r *sysRun, busy bool, final bool) {
 					}
 					sortNow = !sortNow
 				}
+				if a, ok := binds[k]; ok && a == "change-nth(2|1|)" {
+					if afterJump {
+						nthKnown = false
+					}
+					nthPresses++
+				}
 				afterJump = binds[k] == "jump"
 			}
 		}
 	}
 	if !sortKnown {
 		sortNow = st.Sort
+	}
+	if nthKnown {
+		// change-nth(2|1|) goes round: field 2, field 1, then what the command line gave
+		spec := []string{argValue(plan.Args, "--nth"), "2", "1"}[nthPresses%3]
+		var wantNth []Range
+		if spec != "" {
+			wantNth, _ = splitNth(spec)
+		}
+		if !compareRanges(wantNth, r.t.nthCurrent) {
+			c.violate("c08.nth_state", "after %d presses of the key bound to change-nth(2|1|) the fields searched are %v, the cycle is at %q", nthPresses, r.t.nthCurrent, spec)
+			return
+		}
 	}
 	h := plan.Header
 	if h > len(L) {
